@@ -324,10 +324,10 @@ Step(r) ==
 \* identical queries of different tenants are what could make a cache entry cross the tenant boundary)
 \* "leak": a search of the observer for which this model (run with the code's deviations switched on) predicts different
 \* answers in the two copies - the generator steers towards the cases the model says are observable
-\* "spoof": a write / metadata update (of a document the caller can see) that carries reserved keys;
+\* "spoof": a write / metadata update (of a document the caller can see) that carries reserved keys ("spoofu": update only);
 \* "hi": a request with an id whose high word is set
 Weights == [insert |-> 5, binsert |-> 1, bload |-> 1, umeta |-> 2, delete |-> 1, bdelete |-> 1, fdelete |-> 2, query |-> 1,
-            bquery |-> 1, search |-> 4, research |-> 2, leak |-> 3, flush |-> 1, usage |-> 1, nokey |-> 1, spoof |-> 3, hi |-> 3]
+            bquery |-> 1, search |-> 4, research |-> 2, leak |-> 3, flush |-> 1, usage |-> 1, nokey |-> 1, spoof |-> 2, spoofu |-> 2, hi |-> 3]
 Classes == { x \in (DOMAIN Weights) \X (1..5) : x[2] <= Weights[x[1]] /\ (x[1] \in {"flush", "bload"} => Drain) }
 LeakReq(r) == r.t = 1 /\ r.key = "valid" /\ r.rpc = "search" /\ Do(full, r).r # Do(solo, r).r
 SpoofReq(r) == r.spoof /\ r.key = "valid" /\ (r.rpc = "bload" => Drain) /\ (r.rpc = "umeta" => Visible(full, r.t, r.id, r.ns))
@@ -335,6 +335,7 @@ HiReq(r) == HasHi(r) /\ r.key = "valid" /\ (r.rpc = "bload" => Drain)
 InClass(r, c) ==
   IF c = "leak" THEN LeakReq(r)
   ELSE IF c = "spoof" THEN SpoofReq(r)
+  ELSE IF c = "spoofu" THEN SpoofReq(r) /\ r.rpc = "umeta"
   ELSE IF c = "hi" THEN HiReq(r)
   ELSE IF r.key # "valid" THEN c = "nokey"
   ELSE IF c = "research" THEN r.rpc = "search" /\ \E j \in DOMAIN full.qc : full.qc[j].q = r.q
@@ -342,7 +343,8 @@ InClass(r, c) ==
 
 Next ==
   \/ /\ Gen /\ ~done /\ nsteps < MaxOps /\ cls = <<>>
-     /\ \E c \in Classes : (c[1] = "research" => full.qc # <<>>) /\ (c[1] = "leak" => \E r \in Requests : LeakReq(r)) /\ cls' = c
+     /\ \E c \in Classes : (c[1] = "research" => full.qc # <<>>) /\ (c[1] = "leak" => \E r \in Requests : LeakReq(r))
+                            /\ (c[1] = "spoofu" => \E t \in Tenants, i \in Ids : Visible(full, t, i, 0)) /\ cls' = c
      /\ UNCHANGED <<full, solo, ni, flags, hist, nsteps, done>>
   \/ /\ ~done /\ nsteps < MaxOps /\ (Gen => cls # <<>>)
      /\ \E r \in Requests : (Gen => InClass(r, cls[1])) /\ Step(r)
